@@ -84,6 +84,9 @@ def run(ctx):
 
     results = run.run_all(jobs, workers=14)
     run.process(results)
+    run.check_tiling(results, "pat", nc ** 8)
+    run.check_tiling(results, "v4-", nv4)
+    run.check_tiling(results, "str", total)
     ctx.cov["exhaustive"] = True
     ctx.cov["rule"] = ("distinct addresses whose printed text uses '::' compression or dotted-quad form, plus distinct "
                        "strings accepted by a parser, among the cases run on the real code")
